@@ -2,7 +2,7 @@
 //# crate: fri
 //# mount: fri/src/proof.rs
 //# modpath: proof
-//# props: C05
+//# props: C05 C07
 //! C05 (FRI proof container) — `FriProof::read_from` followed by `num_partitions()` never panics whatever the
 //! partition-exponent byte is: exponents the platform cannot represent are rejected by the decoder (repaired
 //! defect F11c: 2^byte was computed for any byte). Zero layers and an empty remainder keep the instance
@@ -10,9 +10,11 @@
 #![allow(unused_imports, dead_code)]
 use utils::{vcheck, vreach, verif_support as vs, SliceReader};
 
+use alloc::vec::Vec;
+
 use super::*;
 
-//# harness: fn=FriProof::read_from, FriProof::num_partitions; label=complete in the partition-exponent byte (zero layers, empty remainder); tier=quick; timeout=600
+//# harness: fn=FriProof::read_from, FriProof::num_partitions; label=complete in the partition-exponent byte (zero layers, empty remainder); tier=quick; props=C05; timeout=600
 #[cfg_attr(kani, kani::proof)]
 #[cfg_attr(kani, kani::unwind(10))]
 #[cfg_attr(kani, kani::stub(alloc::fmt::format, vs::fake_format))]
@@ -30,4 +32,26 @@ pub fn k_c05_fri_num_partitions() {
         },
     }
     vreach!("C05.fri.num_partitions.reach");
+}
+
+// C07: a FRI proof with no layers (remainder of 2 symbolic f128 elements, every admissible partition count)
+// survives the round trip with no bytes left over
+//# harness: fn=FriProof::new, write_into, read_from (no layers); label=bounded(zero layers, remainder of 2 elements of the 128-bit field, every partition count 2^0..2^63); tier=quick; props=C07; timeout=900
+#[cfg_attr(kani, kani::proof)]
+#[cfg_attr(kani, kani::unwind(40))]
+#[cfg_attr(kani, kani::stub(alloc::fmt::format, vs::fake_format))]
+pub fn k_c07_fri_proof_roundtrip() {
+    use math::fields::f128::BaseElement as F128;
+    let (a, b) = (vs::any_u128(), vs::any_u128());
+    let e = vs::any_u32();
+    vs::assume(e < 64);
+    let p = FriProof::new::<F128>(Vec::new(), alloc::vec![F128::new(a), F128::new(b)], 1usize << e);
+    let mut w = vs::ArrayWriter::<36>::new();
+    p.write_into(&mut w);
+    vcheck!("C07.fri_proof.encoded_len", w.pos == 36);
+    let mut r = SliceReader::new(&w.buf);
+    let back = FriProof::read_from(&mut r);
+    vcheck!("C07.fri_proof.roundtrip", back == Ok(p));
+    vcheck!("C07.fri_proof.consumed", !r.has_more_bytes());
+    vreach!("C07.fri_proof.reach");
 }
